@@ -83,7 +83,12 @@ def run(prop, tier="quick", seed=0, replay=None, nshards=None, only=None):
                "--prop", prop, "--tier", tier, "--seed", str(seed), "--cells", cf,
                "--out", of, "--budget", str(budget * 0.85)]
         log = open(os.path.join(work, f"log{i}.txt"), "w")
-        procs.append((subprocess.Popen(cmd, env=env, stdout=log, stderr=subprocess.STDOUT,
+        # every other shard imports the library before double precision is switched on (the
+        # repository's own tests do that; module-level constants are evaluated at import time)
+        env_i = dict(env, GT_IMPORT_ORDER="lib-first" if (i + seed) % 2 else "x64-first")
+        if replay and sh and isinstance(sh[0], dict) and sh[0].get("import_order"):
+            env_i["GT_IMPORT_ORDER"] = sh[0]["import_order"]  # a replay keeps the order it failed in
+        procs.append((subprocess.Popen(cmd, env=env_i, stdout=log, stderr=subprocess.STDOUT,
                                        cwd=core.VERIF), of, log, i))
     problems = []
     outs = []
